@@ -19,6 +19,15 @@ PERSIST_LOOP = ('trashcli.put.janitor_tools.info_file_persister',
                 'InfoFilePersister.try_persist', 0)
 
 
+def heap_frame(V, prefix):
+    """C16 independence: processing one argument writes nothing into the
+    objects that outlive it (the command's object graph)"""
+    writes = [e for e in V.ctx.events if e[0] == 'heap-write']
+    V.ctx.oblige(prefix + '/no-state-carried-over-to-the-next-argument',
+                 z3.BoolVal(not writes),
+                 info={'writes': [(w[1], w[2]) for w in writes[:5]]})
+
+
 def put_objects(V):
     # TRASH_PUT_FAKE_UID_FOR_TESTING is a test hook of main(): assumed unset
     p_, _v = V.I.lib.environ().entry('TRASH_PUT_FAKE_UID_FOR_TESTING')
@@ -26,6 +35,8 @@ def put_objects(V):
     c = wire(V, 'trashcli.put.main', 'trashcli.put.trash_put_cmd',
              'TrashPutCmd.run_put')
     cmd = c['self']
+    V.I.persistent = {}
+    V.I.mark_persistent(cmd)
     trasher = cmd.attrs['trasher']
     file_trasher = trasher.attrs['file_trasher']
     janitor = file_trasher.attrs['janitor']
@@ -123,6 +134,8 @@ class AtomicWrite(Contract):
         removes = [e for e in evs if e.op == 'remove']
         for e in removes:
             res.append(('cleanup-removes-only-that-file', e.args[0] == p))
+        res.append(('cleanup-only-of-a-file-created-by-this-call',
+                    z3.BoolVal(created or not removes)))
         if out[0] == 'return':
             ok = created and len(writes) == 1 and writes[0].ok and not removes
             closes = [e for e in evs if e.op == 'close']
@@ -417,6 +430,9 @@ class PutMove(Contract):
                 res.append(('no-other-event', z3.BoolVal(False)))
         moved = any(e.ok for e in renames) or any(
             e.op == 'delete-src' and e.ok for e in evs)
+        opts = [e for e in V.ctx.events if e[0] == 'shutil.move-options']
+        res.append(('fallback-copy-preserves-metadata-default-copy2',
+                    z3.BoolVal(not opts)))
         if out[0] == 'return':
             res.append(('return-means-moved', z3.BoolVal(moved)))
         else:
@@ -945,6 +961,7 @@ def trash_file_in_vc(S, prefix='put', conservation=True):
             ctx.oblige(prefix + '/attempt/home-fallback-needs-the-environment-switch',
                        z3.Implies(z3.BoolVal(mutated),
                                   z3.And(p_, v_ == SV('1'))))
+        heap_frame(V, prefix + '/attempt')
         ctx.cover(prefix + '/attempt/cover-end')
 
     S.install(contracts, loops)
@@ -1329,6 +1346,7 @@ def trash_file_vc(S, prefix='put/file'):
         else:
             ctx.oblige(prefix + '/success-is-silent-at-verbosity-0',
                        z3.BoolVal(len(lines) == 0))
+        heap_frame(V, prefix)
         ctx.cover(prefix + '/cover-end')
 
     S.install(contracts)
@@ -1426,6 +1444,7 @@ def trash_single_vc(S, prefix='put/single'):
         if not success:
             ctx.oblige(prefix + '/every-failure-is-reported-naming-the-argument',
                        named)
+        heap_frame(V, prefix)
         ctx.cover(prefix + '/cover-end')
 
     S.install(contracts)
